@@ -591,6 +591,25 @@ def main(argv):
                      "impl_files": sorted(got.get(l, [])), "expected_file": h % nsh})
                 break
 
+    # defaults: without -f / -k the whole line is the key (and TAB the delimiter)
+    dflt = b"a\tb\na\tc\na\tb\na\tb\t\n \ta\tb\n"
+    st, so, se = run_tool([repo_bin("dedupe")], stdin=dflt, timeout=60)
+    c.count(("default", "dedupe"), bucket="tool/default-key")
+    c.cov["traces_validated_against_impl"] += 1
+    if st != 0 or so != b"a\tb\na\tc\na\tb\t\n \ta\tb\n":
+        c.violation("tool/default-key: dedupe without -f must use the whole line as the key: printed %r for %r (status %s)" % (so, dflt, st),
+                    {"op": "dedupe", "kind": "default-key", "args": [], "stdin_hex": hexs(dflt), "stdout_hex": hexs(so)})
+    st, so, se = run_tool([repo_bin("cache"), "cat"], stdin=dflt, timeout=60)
+    c.count(("default", "cache"), bucket="tool/default-key")
+    c.cov["traces_validated_against_impl"] += 1
+    if st != 0 or so != dflt:
+        c.violation("tool/default-key: cache without -k must use the whole line as the key: `cache cat` printed %r for %r (status %s)" % (so, dflt, st),
+                    {"op": "cache", "kind": "default-key", "args": ["cat"], "stdin_hex": hexs(dflt), "stdout_hex": hexs(so)})
+    st, so, se = run_tool([repo_bin("dedupe"), "-f", "2"], stdin=dflt, timeout=60)     # default delimiter TAB
+    if st != 0 or so != b"a\tb\na\tc\n \ta\tb\n":
+        c.violation("tool/default-delimiter: dedupe -f 2 (TAB by default) printed %r for %r (status %s)" % (so, dflt, st),
+                    {"op": "dedupe", "kind": "default-delimiter", "args": ["-f", "2"], "stdin_hex": hexs(dflt), "stdout_hex": hexs(so)})
+
     # malformed lists at the command line: an error, not a run
     for bad in (b"0", b"2-3-1", b" 1", b"4294967297", b"1,", b"", b"1-2,2-3", b"3-2", b"+1", b"a"):
         for tool, flag in (("dedupe", "-f"), ("shard", "-f")):
